@@ -187,6 +187,7 @@ CellVetoClauses(e) ==
                 V("C18", l, "CellVetoWalkerSign: wrong walker for the sign of the charge factor"))
         \cup If(cv.positive # 1, V("C18", l, "CellVetoBound: proposed from a cell with non-positive bound"))
         \cup If(Has(cv, "propres") /\ cv.propres > 1, V("C18", l, "CellVetoRate: events are not proposed at total rate * speed (beyond one rounding of the time addition)"))
+        \cup If(Has(cv, "totok") /\ cv.totok = 0, V("C18", l, "CellVetoTotal: the total rate of the alias table in use differs from the sum of the stored (clipped) bounds of all cell offsets for this direction and sign"))
 
 TimeStep(e) ==
     LET h == e.hid
